@@ -510,6 +510,20 @@ Proof.
   - destruct race_str as [x H]. eauto.
 Qed.
 
+(* for ANY table: an entry that is not synchronised and whose site is modelled here makes the
+   obligation fail and has a racing schedule *)
+Theorem table_with_witnessed_static_races : forall tbl e,
+  In e tbl -> synchronised e = false -> has_witness e = true ->
+  statics_ok tbl = false /\ exists p s0 sched, race_witness p s0 sched (ce_name e).
+Proof.
+  intros tbl e Hin Hs Hw. split.
+  - destruct (statics_ok tbl) eqn:E; [| reflexivity].
+    unfold statics_ok in E. rewrite forallb_forall in E. rewrite (E e Hin) in Hs. discriminate.
+  - unfold has_witness in Hw. apply existsb_exists in Hw. destruct Hw as [n [Hn Heq]].
+    apply String.eqb_eq in Heq. rewrite Heq.
+    pose proof witnessed_all as W. rewrite Forall_forall in W. apply W. exact Hn.
+Qed.
+
 (* ---------------------------------------------------------------- observable differences *)
 (* an interleaving (all branch conditions of the paths true in it AND in the sequential run) after
    which a thread's private result differs from the sequential run *)
